@@ -32,7 +32,7 @@ META = {
                  "order-dependence and operand mutation; concrete float pass for hash / copy / pickle",
     "explanation": "bounded: request sequences of length <= 3, size 2",
     "bounds": {"quick": {"request_sequence_length": 2, "size": 2, "attributes": "all (five common ones for the classes with expensive terms)"},
-               "thorough": {"request_sequence_length": "2 over all attributes, 3 over the core attributes T/inv/sqrt/array/log_abs_det/matvec", "size": 2}},
+               "thorough": {"request_sequence_length": "2 over all attributes (without eigval/eigvec/sqrt/lu for the classes with expensive terms), 3 over the core attributes T/inv/sqrt/array/log_abs_det/matvec", "size": 2}},
     "outside": "sizes > 2; hash/pickle on symbolic values (byte-level: checked concretely)",
     "stubs": ["LAPACK stubs"],
     "assumptions": ["denominators recorded during execution non-zero"],
@@ -268,6 +268,10 @@ def cases(tier):
             # quick tier: the classes whose attributes are expensive rational/transcendental terms get the five attributes
             # every class has (all 20 ordered pairs); the full attribute list is explored in the thorough tier
             attrs = ["T", "inv", "array", "log_abs_det", "matvec"]
+        elif heavy:
+            # thorough tier, expensive classes: everything except the eigendecomposition / square-root attributes, whose
+            # interplay with log_abs_det gave z3 'unknown' (30-75 s per obligation) or 45-minute chunks (SoftAbs)
+            attrs = ["T", "inv", "array", "diagonal", "log_abs_det", "factor", "matvec", "rmatmat", "scaled"]
         else:
             attrs = ATTRS
         # all ordered pairs; thorough: also all ordered triples of the core attributes (of four of them for the expensive classes)
